@@ -322,89 +322,106 @@ theorem abs_a_add_lt (x y : ℝ) : |a_add x y| < 360 := abs_a_reduce_lt _
 
 /-! ### the six conversions: safety, rotation, ranges -/
 
-theorem equatorial2ecliptical_spec (α δ ε : ℝ) (hδ : -90 < δ ∧ δ < 90) :
+/-- `atan2(z, ρ)` with `ρ ≥ 0` lies in [-π/2, π/2]: the degree value in [-90, 90]. -/
+theorem a_of_rad_atan2_lat_range (z ρ : ℝ) (hρ : 0 ≤ ρ) :
+    -90 ≤ a_of_rad (patan2 z ρ) ∧ a_of_rad (patan2 z ρ) ≤ 90 := by
+  have h1 : -(π / 2) ≤ Complex.arg ⟨ρ, z⟩ := Complex.neg_pi_div_two_le_arg_iff.mpr (Or.inl hρ)
+  have h2 : Complex.arg ⟨ρ, z⟩ ≤ π / 2 := Complex.arg_le_pi_div_two_iff.mpr (Or.inl hρ)
+  have hab : |patan2 z ρ| < 2 * π := by
+    unfold patan2; rw [abs_lt]; constructor <;> linarith [pi_pos]
+  apply a_of_rad_bounds hab <;> unfold patan2 <;> linarith
+
+/-- The common end of the six conversions (after the fix that takes the latitude from `atan2`): for a unit
+    vector `(X, Y, Z)`, longitude `atan2(Y, X)` and latitude `atan2(Z, sqrt(X*X + Y*Y))`, as Angles, point
+    at `(X, Y, Z)` — for EVERY unit vector, the poles included. -/
+theorem dir_atan2_atan2 {X Y Z : ℝ} (hu : X ^ 2 + Y ^ 2 + Z ^ 2 = 1) :
+    dir (a_of_rad (patan2 Y X)) (a_of_rad (patan2 Z (psqrt (X * X + Y * Y)))) = (X, Y, Z) := by
+  rw [dir_of_rad]
+  have hsq : X * X + Y * Y = X ^ 2 + Y ^ 2 := by ring
+  unfold psqrt patan2
+  rw [hsq]
+  set ρ := √(X ^ 2 + Y ^ 2) with hρ
+  have hρ2 : ρ ^ 2 = X ^ 2 + Y ^ 2 := sq_sqrt (by positivity)
+  have hn : ‖(⟨ρ, Z⟩ : ℂ)‖ = 1 := by
+    rw [Complex.norm_def, Complex.normSq_mk]
+    rw [show ρ * ρ + Z * Z = 1 by nlinarith]; exact sqrt_one
+  have hne : (⟨ρ, Z⟩ : ℂ) ≠ 0 := by
+    intro h0; rw [h0, norm_zero] at hn; exact zero_ne_one hn
+  have hc : cos (Complex.arg ⟨ρ, Z⟩) = ρ := by rw [Complex.cos_arg hne, hn]; simp
+  have hs : sin (Complex.arg ⟨ρ, Z⟩) = Z := by rw [Complex.sin_arg, hn]; simp
+  obtain ⟨h1, h2⟩ := Lemmas.Sphere.norm_mul_cos_sin_arg X Y
+  rw [← hρ] at h1 h2
+  rw [hc, hs, h1, h2]
+
+theorem psqrt_nonneg (x : ℝ) : 0 ≤ psqrt x := by unfold psqrt; exact sqrt_nonneg _
+
+theorem equatorial2ecliptical_spec (α δ ε : ℝ) :
     ∃ lon lat, equatorial2ecliptical α δ ε = .ok (lon, lat) ∧
       dir lon lat = rotX (rad ε) (dir α δ) ∧ (0 ≤ lon ∧ lon < 360) ∧ (-90 ≤ lat ∧ lat ≤ 90) := by
-  have hc := cos_rad_pos hδ
   set w := rotX (rad ε) (dir α δ) with hw
   have hu : w.1 ^ 2 + w.2.1 ^ 2 + w.2.2 ^ 2 = 1 := unit_of_dot_preserving (rotX_dot _) α δ
+  have hx : pcos (a_rad δ) * pcos (a_rad α) = w.1 := by
+    simp only [hw, rotX, dir, pcos, a_rad_eq]
+  have hy : pcos (a_rad δ) * psin (a_rad α) * pcos (a_rad ε) + psin (a_rad δ) * psin (a_rad ε) = w.2.1 := by
+    simp only [hw, rotX, dir, psin, pcos, a_rad_eq]
   have hz : psin (a_rad δ) * pcos (a_rad ε) - pcos (a_rad δ) * psin (a_rad ε) * psin (a_rad α) = w.2.2 := by
     simp only [hw, rotX, dir, psin, pcos, a_rad_eq]; ring
-  have key := m_asin_ok (Lemmas.Sphere.abs_le_one_of_unit hu)
-  rw [← hz] at key
   unfold equatorial2ecliptical
-  simp only [key, bind, Except.bind, pure, Except.pure]
-  refine ⟨_, _, rfl, ?_, ?_, ?_⟩
-  · rw [dir_to_positive, hz]
-    apply dir_atan2_asin hu (k := 1 / cos (rad δ)) (by positivity)
-    · simp only [hw, rotX, dir, pcos, a_rad_eq]; field_simp
-    · simp only [hw, rotX, dir, psin, pcos, ptan, a_rad_eq, tan_eq_sin_div_cos]; field_simp
+  simp only [hx, hy, hz, pure, Except.pure]
+  refine ⟨_, _, rfl, ?_, ?_, a_of_rad_atan2_lat_range _ _ (psqrt_nonneg _)⟩
+  · rw [dir_to_positive]; exact dir_atan2_atan2 hu
   · apply a_to_positive_range
-    have := a_of_rad_atan2_range (psin (a_rad α) * pcos (a_rad ε) + ptan (a_rad δ) * psin (a_rad ε)) (pcos (a_rad α))
+    have := a_of_rad_atan2_range w.2.1 w.1
     rw [abs_lt]; constructor <;> linarith [this.1, this.2]
-  · exact a_of_rad_arcsin_range _
 
-theorem ecliptical2equatorial_spec (l b ε : ℝ) (hb : -90 < b ∧ b < 90) :
+theorem ecliptical2equatorial_spec (l b ε : ℝ) :
     ∃ ra dec, ecliptical2equatorial l b ε = .ok (ra, dec) ∧
       dir ra dec = rotX (-(rad ε)) (dir l b) ∧ (0 ≤ ra ∧ ra < 360) ∧ (-90 ≤ dec ∧ dec ≤ 90) := by
-  have hc := cos_rad_pos hb
   set w := rotX (-(rad ε)) (dir l b) with hw
   have hu : w.1 ^ 2 + w.2.1 ^ 2 + w.2.2 ^ 2 = 1 := unit_of_dot_preserving (rotX_dot _) l b
+  have hx : pcos (a_rad b) * pcos (a_rad l) = w.1 := by
+    simp only [hw, rotX, dir, pcos, a_rad_eq]
+  have hy : pcos (a_rad b) * psin (a_rad l) * pcos (a_rad ε) - psin (a_rad b) * psin (a_rad ε) = w.2.1 := by
+    simp only [hw, rotX, dir, psin, pcos, a_rad_eq, cos_neg, sin_neg]; ring
   have hz : psin (a_rad b) * pcos (a_rad ε) + pcos (a_rad b) * psin (a_rad ε) * psin (a_rad l) = w.2.2 := by
     simp only [hw, rotX, dir, psin, pcos, a_rad_eq, cos_neg, sin_neg]; ring
-  have key := m_asin_ok (Lemmas.Sphere.abs_le_one_of_unit hu)
-  rw [← hz] at key
   unfold ecliptical2equatorial
-  simp only [key, bind, Except.bind, pure, Except.pure]
-  refine ⟨_, _, rfl, ?_, ?_, ?_⟩
-  · rw [dir_to_positive, hz]
-    apply dir_atan2_asin hu (k := 1 / cos (rad b)) (by positivity)
-    · simp only [hw, rotX, dir, pcos, a_rad_eq]; field_simp
-    · simp only [hw, rotX, dir, psin, pcos, ptan, a_rad_eq, tan_eq_sin_div_cos, cos_neg, sin_neg]; field_simp; ring
+  simp only [hx, hy, hz, pure, Except.pure]
+  refine ⟨_, _, rfl, ?_, ?_, a_of_rad_atan2_lat_range _ _ (psqrt_nonneg _)⟩
+  · rw [dir_to_positive]; exact dir_atan2_atan2 hu
   · apply a_to_positive_range
-    have := a_of_rad_atan2_range (psin (a_rad l) * pcos (a_rad ε) - ptan (a_rad b) * psin (a_rad ε)) (pcos (a_rad l))
+    have := a_of_rad_atan2_range w.2.1 w.1
     rw [abs_lt]; constructor <;> linarith [this.1, this.2]
-  · exact a_of_rad_arcsin_range _
 
-theorem equatorial2horizontal_spec (H δ φ : ℝ) (hδ : -90 < δ ∧ δ < 90) :
+theorem equatorial2horizontal_spec (H δ φ : ℝ) :
     ∃ azi ele, equatorial2horizontal H δ φ = .ok (azi, ele) ∧
       dir azi ele = horizontalOfEquatorial (rad φ) (dir H δ) ∧ (-180 < azi ∧ azi ≤ 180) ∧ (-90 ≤ ele ∧ ele ≤ 90) := by
-  have hc := cos_rad_pos hδ
   set w := horizontalOfEquatorial (rad φ) (dir H δ) with hw
   have hu : w.1 ^ 2 + w.2.1 ^ 2 + w.2.2 ^ 2 = 1 := unit_of_dot_preserving (tilt_dot _) H δ
+  have hx : pcos (a_rad δ) * pcos (a_rad H) * psin (a_rad φ) - psin (a_rad δ) * pcos (a_rad φ) = w.1 := by
+    simp only [hw, horizontalOfEquatorial, tilt, dir, psin, pcos, a_rad_eq]
+  have hy : pcos (a_rad δ) * psin (a_rad H) = w.2.1 := by
+    simp only [hw, horizontalOfEquatorial, tilt, dir, psin, pcos, a_rad_eq]
   have hz : psin (a_rad φ) * psin (a_rad δ) + pcos (a_rad φ) * pcos (a_rad δ) * pcos (a_rad H) = w.2.2 := by
     simp only [hw, horizontalOfEquatorial, tilt, dir, psin, pcos, a_rad_eq]; ring
-  have key := m_asin_ok (Lemmas.Sphere.abs_le_one_of_unit hu)
-  rw [← hz] at key
   unfold equatorial2horizontal
-  simp only [key, bind, Except.bind, pure, Except.pure]
-  refine ⟨_, _, rfl, ?_, ?_, ?_⟩
-  · rw [hz]
-    apply dir_atan2_asin hu (k := 1 / cos (rad δ)) (by positivity)
-    · simp only [hw, horizontalOfEquatorial, tilt, dir, psin, pcos, ptan, a_rad_eq, tan_eq_sin_div_cos]; field_simp
-    · simp only [hw, horizontalOfEquatorial, tilt, dir, psin, pcos, a_rad_eq]; field_simp
-  · exact a_of_rad_atan2_range _ _
-  · exact a_of_rad_arcsin_range _
+  simp only [hx, hy, hz, pure, Except.pure]
+  exact ⟨_, _, rfl, dir_atan2_atan2 hu, a_of_rad_atan2_range _ _, a_of_rad_atan2_lat_range _ _ (psqrt_nonneg _)⟩
 
-theorem horizontal2equatorial_spec (A h φ : ℝ) (hh : -90 < h ∧ h < 90) :
+theorem horizontal2equatorial_spec (A h φ : ℝ) :
     ∃ H dec, horizontal2equatorial A h φ = .ok (H, dec) ∧
       dir H dec = equatorialOfHorizontal (rad φ) (dir A h) ∧ (-180 < H ∧ H ≤ 180) ∧ (-90 ≤ dec ∧ dec ≤ 90) := by
-  have hc := cos_rad_pos hh
   set w := equatorialOfHorizontal (rad φ) (dir A h) with hw
   have hu : w.1 ^ 2 + w.2.1 ^ 2 + w.2.2 ^ 2 = 1 := unit_of_dot_preserving (tiltT_dot _) A h
+  have hx : pcos (a_rad h) * pcos (a_rad A) * psin (a_rad φ) + psin (a_rad h) * pcos (a_rad φ) = w.1 := by
+    simp only [hw, equatorialOfHorizontal, tiltT, dir, psin, pcos, a_rad_eq]
+  have hy : pcos (a_rad h) * psin (a_rad A) = w.2.1 := by
+    simp only [hw, equatorialOfHorizontal, tiltT, dir, psin, pcos, a_rad_eq]
   have hz : psin (a_rad φ) * psin (a_rad h) - pcos (a_rad φ) * pcos (a_rad h) * pcos (a_rad A) = w.2.2 := by
     simp only [hw, equatorialOfHorizontal, tiltT, dir, psin, pcos, a_rad_eq]; ring
-  have key := m_asin_ok (Lemmas.Sphere.abs_le_one_of_unit hu)
-  rw [← hz] at key
   unfold horizontal2equatorial
-  simp only [key, bind, Except.bind, pure, Except.pure]
-  refine ⟨_, _, rfl, ?_, ?_, ?_⟩
-  · rw [hz]
-    apply dir_atan2_asin hu (k := 1 / cos (rad h)) (by positivity)
-    · simp only [hw, equatorialOfHorizontal, tiltT, dir, psin, pcos, ptan, a_rad_eq, tan_eq_sin_div_cos]; field_simp
-    · simp only [hw, equatorialOfHorizontal, tiltT, dir, psin, pcos, a_rad_eq]; field_simp
-  · exact a_of_rad_atan2_range _ _
-  · exact a_of_rad_arcsin_range _
+  simp only [hx, hy, hz, pure, Except.pure]
+  exact ⟨_, _, rfl, dir_atan2_atan2 hu, a_of_rad_atan2_range _ _, a_of_rad_atan2_lat_range _ _ (psqrt_nonneg _)⟩
 
 theorem c_192 : a_rad (a_reduce 192.25) = rad 192.25 := by
   rw [a_rad_eq, a_reduce_of_lt]; rw [abs_lt]; constructor <;> norm_num
@@ -415,64 +432,56 @@ theorem c_123 : a_rad (a_reduce 123.0) = rad 123 := by
   · congr 1; norm_num
   · rw [abs_lt]; constructor <;> norm_num
 
-theorem equatorial2galactic_spec (α δ : ℝ) (hδ : -90 < δ ∧ δ < 90) :
+theorem equatorial2galactic_spec (α δ : ℝ) :
     ∃ lon lat, equatorial2galactic α δ = .ok (lon, lat) ∧
       dir lon lat = galacticOfEquatorial (dir α δ) ∧ (0 ≤ lon ∧ lon < 360) ∧ (-90 ≤ lat ∧ lat ≤ 90) := by
-  have hc := cos_rad_pos hδ
   set t := tilt (rad 27.4) (flipZ (rad 192.25) (dir α δ)) with ht
   have hu : t.1 ^ 2 + t.2.1 ^ 2 + t.2.2 ^ 2 = 1 :=
     unit_of_dot_preserving (M := fun v => tilt (rad 27.4) (flipZ (rad 192.25) v))
       (fun u v => by rw [tilt_dot, flipZ_dot]) α δ
+  have hx : pcos (a_rad δ) * pcos (rad 192.25 - a_rad α) * psin (rad 27.4) - psin (a_rad δ) * pcos (rad 27.4) = t.1 := by
+    simp only [ht, tilt, flipZ, dir, psin, pcos, a_rad_eq, cos_sub]; ring
+  have hy : pcos (a_rad δ) * psin (rad 192.25 - a_rad α) = t.2.1 := by
+    simp only [ht, tilt, flipZ, dir, psin, pcos, a_rad_eq, sin_sub]; ring
   have hz : psin (a_rad δ) * psin (rad 27.4) + pcos (a_rad δ) * pcos (rad 27.4) * pcos (rad 192.25 - a_rad α) = t.2.2 := by
     simp only [ht, tilt, flipZ, dir, psin, pcos, a_rad_eq, cos_sub]; ring
-  have key := m_asin_ok (Lemmas.Sphere.abs_le_one_of_unit hu)
-  rw [← hz] at key
   unfold equatorial2galactic
-  simp only [c_192, c_27, key, bind, Except.bind, pure, Except.pure]
-  refine ⟨_, _, rfl, ?_, ?_, ?_⟩
-  · rw [dir_to_positive, hz, dir_flip]
+  simp only [c_192, c_27, hx, hy, hz, pure, Except.pure]
+  refine ⟨_, _, rfl, ?_, ?_, a_of_rad_atan2_lat_range _ _ (psqrt_nonneg _)⟩
+  · rw [dir_to_positive, dir_flip]
     unfold galacticOfEquatorial
     rw [← ht]
     have h303 : rad (303.0 : ℝ) = rad 303 := by congr 1; norm_num
     rw [h303]
     congr 1
-    obtain ⟨h1, h2, h3⟩ := Lemmas.Sphere.unit_of_arg_arcsin hu (k := 1 / cos (rad δ)) (by positivity)
-    have e1 : pcos (rad 192.25 - a_rad α) * psin (rad 27.4) - ptan (a_rad δ) * pcos (rad 27.4) = 1 / cos (rad δ) * t.1 := by
-      simp only [ht, tilt, flipZ, dir, psin, pcos, ptan, a_rad_eq, tan_eq_sin_div_cos, cos_sub]; field_simp
-    have e2 : psin (rad 192.25 - a_rad α) = 1 / cos (rad δ) * t.2.1 := by
-      simp only [ht, tilt, flipZ, dir, psin, pcos, a_rad_eq, sin_sub]; field_simp
-    unfold patan2
-    rw [e1, e2, h1, h2, h3]
+    have := dir_atan2_atan2 hu
+    rw [dir_of_rad] at this
+    exact this
   · apply a_to_positive_range; exact abs_a_add_lt _ _
-  · exact a_of_rad_arcsin_range _
 
-theorem galactic2equatorial_spec (l b : ℝ) (hb : -90 < b ∧ b < 90) :
+theorem galactic2equatorial_spec (l b : ℝ) :
     ∃ ra dec, galactic2equatorial l b = .ok (ra, dec) ∧
       dir ra dec = equatorialOfGalactic (dir l b) ∧ (0 ≤ ra ∧ ra < 360) ∧ (-90 ≤ dec ∧ dec ≤ 90) := by
-  have hc := cos_rad_pos hb
   set t := tilt (rad 27.4) (rotZ (-(rad 123)) (dir l b)) with ht
   have hu : t.1 ^ 2 + t.2.1 ^ 2 + t.2.2 ^ 2 = 1 :=
     unit_of_dot_preserving (M := fun v => tilt (rad 27.4) (rotZ (-(rad 123)) v))
       (fun u v => by rw [tilt_dot, rotZ_dot]) l b
+  have hx : pcos (a_rad b) * pcos (a_rad l - rad 123) * psin (rad 27.4) - psin (a_rad b) * pcos (rad 27.4) = t.1 := by
+    simp only [ht, tilt, rotZ, dir, psin, pcos, a_rad_eq, cos_sub, cos_neg, sin_neg]; ring
+  have hy : pcos (a_rad b) * psin (a_rad l - rad 123) = t.2.1 := by
+    simp only [ht, tilt, rotZ, dir, psin, pcos, a_rad_eq, sin_sub, cos_neg, sin_neg]; ring
   have hz : psin (a_rad b) * psin (rad 27.4) + pcos (a_rad b) * pcos (rad 27.4) * pcos (a_rad l - rad 123) = t.2.2 := by
     simp only [ht, tilt, rotZ, dir, psin, pcos, a_rad_eq, cos_sub, cos_neg, sin_neg]; ring
-  have key := m_asin_ok (Lemmas.Sphere.abs_le_one_of_unit hu)
-  rw [← hz] at key
   unfold galactic2equatorial
-  simp only [c_123, c_27, key, bind, Except.bind, pure, Except.pure]
-  refine ⟨_, _, rfl, ?_, ?_, ?_⟩
-  · rw [dir_to_positive, hz, dir_shift]
+  simp only [c_123, c_27, hx, hy, hz, pure, Except.pure]
+  refine ⟨_, _, rfl, ?_, ?_, a_of_rad_atan2_lat_range _ _ (psqrt_nonneg _)⟩
+  · rw [dir_to_positive, dir_shift]
     unfold equatorialOfGalactic
     rw [← ht]
     congr 1
-    obtain ⟨h1, h2, h3⟩ := Lemmas.Sphere.unit_of_arg_arcsin hu (k := 1 / cos (rad b)) (by positivity)
-    have e1 : pcos (a_rad l - rad 123) * psin (rad 27.4) - ptan (a_rad b) * pcos (rad 27.4) = 1 / cos (rad b) * t.1 := by
-      simp only [ht, tilt, rotZ, dir, psin, pcos, ptan, a_rad_eq, tan_eq_sin_div_cos, cos_sub, cos_neg, sin_neg]; field_simp; ring
-    have e2 : psin (a_rad l - rad 123) = 1 / cos (rad b) * t.2.1 := by
-      simp only [ht, tilt, rotZ, dir, psin, pcos, a_rad_eq, sin_sub, cos_neg, sin_neg]; field_simp; ring
-    unfold patan2
-    rw [e1, e2, h1, h2, h3]
+    have := dir_atan2_atan2 hu
+    rw [dir_of_rad] at this
+    exact this
   · apply a_to_positive_range; exact abs_a_add_lt _ _
-  · exact a_of_rad_arcsin_range _
 
 end Pymeeus.Refine.Coords
